@@ -1,11 +1,11 @@
 package main
 
 import (
-	"go/constant"
-	"os"
-	"go/token"
 	"fmt"
+	"go/constant"
+	"go/token"
 	"go/types"
+	"os"
 	"regexp"
 	"strings"
 
@@ -113,7 +113,7 @@ func runC06(c *Ctx) {
 			args[i] = pat(v)
 		}
 		CheckCallReq(c, "pre-block-leaf", CallReq{ID: r.dist, Entry: CRB, CalleeDesc: name, Callee: func(fn *ssa.Function) bool { return fn != nil && FuncName(fn) == name }, Args: args,
-			CtxFn: func(desc string) bool { return c06NothingTouched(c, ge, desc) },
+			CtxFn:  func(desc string) bool { return c06NothingTouched(c, ge, desc) },
 			Clause: "after a revert every touched element is restored as unspent / unresolved / unrevised"}, cs)
 	}
 	// (3b) recorders keep the pre-block element
